@@ -1,5 +1,6 @@
 import ZmqVerif.Lemmas.Segment
 import ZmqVerif.Lemmas.Decode
+import ZmqVerif.Lemmas.WorldHist
 /-!
 # C02 — stream reassembly is independent of how the bytes were segmented
 
@@ -63,5 +64,42 @@ buffered half a frame header -/
 example : Conn.init.Quiescent := by right; simp [Conn.init, Dec.init, DState.need]
 example : (⟨⟨.len ⟨false, true, false⟩, [[1]]⟩, [0, 0, 0], none, none⟩ : Conn).Quiescent := by
   right; simp [DState.need]
+
+
+/-! ### socket level: what `recv` delivers depends on the connections' byte streams only -/
+
+open Zmq.W in
+/-- **Two histories of the same socket** — any interleaving of `recv` polls (completed, `Pending`, abandoned) with bytes
+arriving on any connection in ANY segmentation — in which connection `k` has received the same bytes in total
+(`rev₁ p = rev₂ p` for its pipe: the concatenation, not the pieces): the messages delivered from `k` so far, followed by
+the complete messages still waiting in front of its reader, are THE SAME list in both.  How the transport cut the stream
+into reads, when the application polled and what happened on other connections decide only how far along that list
+each history is. -/
+theorem C02_world_segmentation {t : SockType} {ps0 : Pipes} {m0 : Streams}
+    {ps1 : Pipes} {m1 : Streams} {taken1 : Ident → List Item} {rev1 : Nat → Bytes} {log1 : List (Ident × Msg × POut)}
+    {ps2 : Pipes} {m2 : Streams} {taken2 : Ident → List Item} {rev2 : Nat → Bytes} {log2 : List (Ident × Msg × POut)}
+    (h1 : RecvRun t ps0 m0 ps1 m1 taken1 rev1 log1) (h2 : RecvRun t ps0 m0 ps2 m2 taken2 rev2 log2)
+    (k : Ident) (rd0 rd1 rd2 : Rd) (h0 : ilookup m0 k = some rd0)
+    (hk1 : ilookup m1 k = some rd1) (hk2 : ilookup m2 k = some rd2)
+    (hrev : rev1 rd0.pipe = rev2 rd0.pipe) :
+    (log1.filter (fun e => e.1 == k)).map (·.2.1) ++ msgsOf (rd1.items ps1) =
+      (log2.filter (fun e => e.1 == k)).map (·.2.1) ++ msgsOf (rd2.items ps2) := by
+  rw [← h1.exactly_once k rd0 rd1 h0 hk1, ← h2.exactly_once k rd0 rd2 h0 hk2]
+  simp only [total, hrev]
+
+open Zmq.W in
+/-- in particular, once both have drained the connection (nothing complete left in front of its reader), both have
+delivered exactly the same messages from it, in the same order -/
+theorem C02_world_segmentation_drained {t : SockType} {ps0 : Pipes} {m0 : Streams}
+    {ps1 : Pipes} {m1 : Streams} {taken1 : Ident → List Item} {rev1 : Nat → Bytes} {log1 : List (Ident × Msg × POut)}
+    {ps2 : Pipes} {m2 : Streams} {taken2 : Ident → List Item} {rev2 : Nat → Bytes} {log2 : List (Ident × Msg × POut)}
+    (h1 : RecvRun t ps0 m0 ps1 m1 taken1 rev1 log1) (h2 : RecvRun t ps0 m0 ps2 m2 taken2 rev2 log2)
+    (k : Ident) (rd0 rd1 rd2 : Rd) (h0 : ilookup m0 k = some rd0)
+    (hk1 : ilookup m1 k = some rd1) (hk2 : ilookup m2 k = some rd2)
+    (hrev : rev1 rd0.pipe = rev2 rd0.pipe)
+    (hd1 : msgsOf (rd1.items ps1) = []) (hd2 : msgsOf (rd2.items ps2) = []) :
+    (log1.filter (fun e => e.1 == k)).map (·.2.1) = (log2.filter (fun e => e.1 == k)).map (·.2.1) := by
+  have := C02_world_segmentation h1 h2 k rd0 rd1 rd2 h0 hk1 hk2 hrev
+  simpa [hd1, hd2] using this
 
 end Zmq.C02
